@@ -86,9 +86,10 @@ rv = os.path.join(R, "seeded", "REVERSE.log")
 if os.path.exists(rv):
     out += [l.rstrip() for l in open(rv) if l.startswith(("CAUGHT", "MISSED", "SKIP"))]
 out += ["```", "",
-"SKIP / INVALID: later repairs rewrote the same lines (or build on what the commit introduced), so the commit no longer reverts mechanically. Twelve of those sixteen were reverted and caught when the tree still allowed it (`seeded/REVERSE-earlier.log`, run at 6a498f0 or before):",
+"SKIP / INVALID: later repairs rewrote the same lines (or build on what the commit introduced), so the commit no longer reverts mechanically. Most of those were reverted and caught when the tree still allowed it (`seeded/REVERSE-at-c9e43cc.log`, `seeded/REVERSE-earlier.log` run at 6a498f0 or before):",
 "", "```"]
 rve = os.path.join(R, "seeded", "REVERSE-earlier.log")
+rvc = os.path.join(R, "seeded", "REVERSE-at-c9e43cc.log")
 skipped = set()
 if os.path.exists(rv):
     for l in open(rv):
@@ -96,10 +97,16 @@ if os.path.exists(rv):
             for w in l.replace(":", " ").split():
                 if len(w) >= 7 and all(ch in "0123456789abcdef+" for ch in w):
                     skipped.add(w)
-if os.path.exists(rve):
-    out += [l.rstrip() for l in open(rve) if any(("reverse-of-" + h + " ") in l for h in skipped)]
+seen_prev = set()
+for prev in (rvc, rve):
+    if os.path.exists(prev):
+        for l in open(prev):
+            if l.startswith("CAUGHT") and any(("reverse-of-" + h + " ") in l for h in skipped) and l not in seen_prev:
+                seen_prev.add(l)
+                out.append(l.rstrip())
 out += ["```", "",
-"The other four (c5d9a4e, 5d9bd9c, 42e9a45, 3c8a603) are repairs of this work's last two rounds; for each the owning check was run on the tree as it was just before the repair, which is its exact reverse: C01 reported 65 violations (c5d9a4e), C09 126 (5d9bd9c), C12 2 896 (42e9a45), C14 6 (3c8a603) - section 5.",
+"The remaining four (c5d9a4e, 5d9bd9c, 42e9a45, 3c8a603) never reverted mechanically; for each the owning check was run on the tree as it was just before the repair, which is its exact reverse: C01 reported 65 violations (c5d9a4e), C09 126 (5d9bd9c), C12 2 896 (42e9a45), C14 6 (3c8a603) - section 5.",
+"MISSED reverse-of-1e9621e: that repair made `o.k.length = o.k = 5` fail like `o.k.size = o.k = 5` instead of storing into the object `o.k` used to hold. Both are the case in which the right-hand side replaces a container on the target's own path, which the thorough tier later showed to be undecided by the statement and which is pinned since (section 7.1); its reversal was caught while the model still demanded the error (`seeded/REVERSE-at-c9e43cc.log`) and is, correctly, no longer claimed.",
 "", "### 8.3 Benign variants (must stay silent)", "",
 "`tools/benign_all.sh` applies each patch under `mutants/benign/` and runs all twenty checks: reworded error messages; call depth limit 3000, evaluation nesting 30000 and array fill limit 1 500 000 (all inside the bands); object keys printed and iterated in reverse-sorted instead of sorted order; print assembling its line and writing it once, slices.Sort for the keys; a regex cache keyed by pattern text and padding that grows the array once; the sixth round's constants and wording (parser nesting bound 120 000, huge-index threshold 2^53, reworded diagnostics).",
 "", "```"]
